@@ -35,7 +35,9 @@ type Obligation struct {
 type Report struct {
 	Obls   []Obligation
 	Floors map[string]int // rule -> minimum number of obligations
-	Notes  []string
+	// Credits: instances a rule counts beyond its obligations (see Credit)
+	Credits map[string]int
+	Notes   []string
 	// SelfTest is filled by the thorough tier (variant matrix outcome).
 	SelfTest map[string]interface{}
 	seen     map[string]bool
@@ -70,6 +72,16 @@ func (r *Report) unk(rule, key, pos, detail string) {
 // rule that has lost its anchors must not pass by matching nothing.
 func (r *Report) Floor(rule string, n int) { r.Floors[rule] = n }
 
+// Credit counts n further instances for a rule's floor: one obligation on a
+// shared helper stands for as many instances as the helper has call sites
+// (merging equal code into a helper must not look like a lost anchor).
+func (r *Report) Credit(rule string, n int) {
+	if r.Credits == nil {
+		r.Credits = map[string]int{}
+	}
+	r.Credits[rule] += n
+}
+
 func (r *Report) Note(format string, a ...interface{}) {
 	r.Notes = append(r.Notes, fmt.Sprintf(format, a...))
 }
@@ -91,7 +103,7 @@ func (r *Report) CheckFloors() {
 	}
 	sort.Strings(rules)
 	for _, rule := range rules {
-		if c[rule] < r.Floors[rule] {
+		if c[rule]+r.Credits[rule] < r.Floors[rule] {
 			r.Add(Obligation{Rule: rule, Key: "floor:" + rule, Status: Undecided,
 				Detail: fmt.Sprintf("rule produced %d obligations, fewer than the %d instances confirmed by reading the code: its anchors no longer match", c[rule], r.Floors[rule])})
 		}
